@@ -1128,7 +1128,16 @@ func TestVerifHarness_NodeLoss(t *testing.T) {
 	}
 	out := struct {
 		Scenarios []vhnlObs `json:"scenarios"`
+		// the address a node advertises to its peers when only a bind address is configured: [bind, advertised or "error: ..."]
+		Advertise [][2]string `json:"advertise"`
 	}{Scenarios: make([]vhnlObs, len(in.Scenarios))}
+	for _, bind := range []string{"127.0.0.1:8000", "[::1]:8000", "[fe80::1%lo]:7000", "10.1.2.3:1", "localhost:8001", "[2001:db8::5]:443"} {
+		adv, err := advertiseAddrFromListenAddr(bind)
+		if err != nil {
+			adv = "error: " + err.Error()
+		}
+		out.Advertise = append(out.Advertise, [2]string{bind, adv})
+	}
 	par := in.Parallel
 	if par < 1 {
 		par = 1
